@@ -132,6 +132,10 @@ Proof.
   pose proof checked_sites_ok as H. rewrite forallb_forall in H. apply H. exact Hs.
 Qed.
 
+(* the nameless table the extracted driver uses is the same list *)
+Lemma site_table_matches_proof : site_table = map (fun s => (capacity s, swrite s)) sites.
+Proof. vm_compute. reflexivity. Qed.
+
 (* no site is unclassified, the findings included *)
 Definition recognised (s : site) : bool :=
   match swrite s with Unrecognised => false | _ => true end.
